@@ -1,4 +1,5 @@
 import PytezosModel.Proofs.InterpSoundEval
+set_option linter.unusedSectionVars false   -- `[Mode]` is a section variable of every lemma here; some do not use it
 /-! Progress half of type soundness, groundwork.
 
 * `Res.Safe P r`: the outcome `r` is not stuck (and not `offguard`), and if it is a result, the result satisfies `P` —
